@@ -7,12 +7,14 @@ package main
 
 import (
 	"bufio"
+	"context"
 	"fmt"
 	"os"
 	"os/exec"
 	"path/filepath"
 	"strings"
 	"syscall"
+	"time"
 )
 
 func init() {
@@ -47,11 +49,20 @@ func runMon(p *Project, extraEnv []string, logf string, mode []string, args []st
 	a := append([]string{"--log", logf}, mode...)
 	a = append(a, "--", p.Dud)
 	a = append(a, args...)
-	cmd := exec.Command(sysmonBin(), a...)
+	// a watchdog: a disturbed commit that never returns is a result (exit 124), not a reason to wait
+	ctx, cancel := context.WithTimeout(context.Background(), 90*time.Second)
+	defer cancel()
+	cmd := exec.CommandContext(ctx, sysmonBin(), a...)
 	cmd.Dir = p.Root
 	cmd.Env = append(append([]string{}, p.Env...), extraEnv...)
+	cmd.SysProcAttr = &syscall.SysProcAttr{Setpgid: true}
+	cmd.Cancel = func() error { return syscall.Kill(-cmd.Process.Pid, syscall.SIGKILL) }
 	err := cmd.Run()
 	rc := 0
+	if ctx.Err() == context.DeadlineExceeded {
+		monHangs++
+		return 124, -1
+	}
 	if err != nil {
 		rc = 1
 		if ee, ok := err.(*exec.ExitError); ok {
@@ -72,6 +83,9 @@ func runMon(p *Project, extraEnv []string, logf string, mode []string, args []st
 	}
 	return rc, count
 }
+
+// monHangs counts monitored runs that had to be killed by the watchdog.
+var monHangs int
 
 type monCall struct {
 	op, class, p1, p2 string
@@ -326,6 +340,9 @@ func runCrash(o *opts, fault bool) {
 		s.count(fmt.Sprintf("scenario:%s", sc.name))
 		s.Extra[sc.name] = fmt.Sprintf("%d mutating system calls", n)
 		for k := 1; k <= n; k++ {
+			if monHangs >= 3 {
+				break // three hangs are evidence enough
+			}
 			call := calls[k]
 			if fault && call.class == "lock" && call.op == "unlink" {
 				continue // the release of the lock itself cannot be made to fail and still unlock
@@ -354,7 +371,11 @@ func runCrash(o *opts, fault bool) {
 			if fault {
 				specs = want(40, 41, 43, 44, 45, 46, 47, 48)
 				// the cause (a transient error) is gone: retry the same command
+				pk.Timeout = 90 * time.Second
 				res := pk.dud("", sc.args...)
+				if pk.Hung {
+					monHangs++
+				}
 				// stray temp files in the cache root are allowed
 				R = pk.observe()
 				retryOK = res.Exit == 0
@@ -381,16 +402,24 @@ func runCrash(o *opts, fault bool) {
 	}
 	if fault {
 		// un-committable entries at every position of a tree, then removal of the cause and retry
-		for rep := 0; rep < 2; rep++ {
+		for rep := 0; rep < 3; rep++ {
 			rr := r.fork()
 			var pool [][]byte
 			t := genTree(rr, 0, treeOpts{maxDepth: 1, maxFan: 4}, &pool, nil)
+			if rep == 2 {
+				// more entries than all the commit workers together, the bad one first in the listing:
+				// the feeder still has entries to hand out when the failure cancels the group
+				t = wideTree(150, rr)
+			}
 			t.set("keep", nFile([]byte("keep me")))
 			var names []string
 			for _, e := range t.Ents {
 				names = append(names, e.Name)
 			}
 			for pos := 0; pos <= len(names); pos++ {
+				if rep == 2 && pos > 0 {
+					break
+				}
 				for _, kind := range []string{"foreign-link", "fifo", "dangling-cache-link"} {
 					base := scenarioDir(o, fam, 1000+rep*100+pos*10+len(kind))
 					p := newProject(o, base, "in")
@@ -425,7 +454,15 @@ func runCrash(o *opts, fault bool) {
 					if cp {
 						args = append(args, "--copy")
 					}
+					if monHangs >= 3 {
+						rmrf(base)
+						continue
+					}
+					p.Timeout = 90 * time.Second
 					res := p.dud("", args...)
+					if p.Hung {
+						monHangs++
+					}
 					W := p.observe()
 					// remove the cause, retry
 					os.Remove(filepath.Join(p.Root, "data", bad))
